@@ -18,6 +18,7 @@ RULE = ("for each diagram (standard line/bar plot, obsfcst, qq, scatter, cond, f
 RULE += " " + 'Diagrams qq-q (quantile curves), timeseries-ens (one curve per member), rank view with a score undefined for one input only; shards rotate the process time zone.'
 RULE += " " + 'Rounds 9-10: mapimpact markers; inverse reliability with several quantile levels and automatic bins.'
 RULE += " " + 'Rounds 11-12: discrimination with given bin edges; freq with forecast-only inputs.'
+RULE += " " + 'Rounds 13-14: the complete autocorr / autocov diagram (no -simple) along elev / lat / lon / location on a network whose stations share coordinates, including the zero-distance marker; per-input probabilistic diagrams (reliability, discrimination, roc, marginal, igncontrib, economicvalue, bsdecomp, invreliability) on files that store different observations.'
 ASSUMPTIONS = ["figures are checked through matplotlib's object model (Agg backend), not pixels",
                "decorations (confidence bands, reference lines, labels) are not part of the property"]
 REQUIRED_COUNTERS = ["figures", "series_compared", "points_compared", "bin_conservation_checks"]
